@@ -117,7 +117,7 @@ Lemma evict_spec size s :
   qn s' = N.of_nat (length (qlist s')) /\ now s' = now s /\ qfrozen s' = qfrozen s.
 Proof.
   intros Hn. unfold qlist in *. rewrite app_length in Hn.
-  unfold evict. rewrite Hn, Nat2N.inj_add, drop_old_spec.
+  unfold evict. rewrite <- rev_alt, Hn, Nat2N.inj_add, drop_old_spec.
   rewrite dropwhile_app.
   destruct (dropwhile (old size (now s)) (qf s)) as [|p f] eqn:Ef.
   - cbn [length]. replace (N.of_nat 0 + N.of_nat (length (rev (qb s))))%N
